@@ -1077,7 +1077,9 @@ def run_failpoints(ctx, job, idx, rng, st):
 
     # whatever happened, the object must still describe the same physical state and still convert
     try:
-        phys_post = physical_state(T, ref_frame)
+        # an object left with inconsistent numbers may send the anomaly solver into an endless iteration: bounded
+        with probe.AnomalySolverBudget(50000):
+            phys_post = physical_state(T, ref_frame)
     except Exception as exc:
         ctx.violation(f"C15/failed-{opkey}-object-unusable", pool.wit(site=site, exc=repr(exc)),
                       f"after the failed {opname} the object cannot be converted any more: {exc!r}")
